@@ -49,6 +49,8 @@ package escape
 
 //@ spec wfGraph(g *EscapeGraph) bool = g != nil && g.status != nil && g.edges != nil && g.rationales != nil && (forall m *Node :: has(g.status, m) <==> has(g.edges, m)) && (forall m *Node :: has(g.edges, m) ==> g.edges[m] != nil && allocated(g.edges[m]))
 //@ spec statusGrew(g *EscapeGraph) bool = forall m *Node :: g.status[m] >= old(g.status[m]) && (old(has(g.status, m)) ==> has(g.status, m))
+//@ spec targetsAreNodes(g *EscapeGraph) bool = forall x *Node, y *Node :: has(g.edges, x) && has(g.edges[x], y) ==> has(g.status, y)
+//@ spec sameNodes(g *EscapeGraph) bool = forall m *Node :: has(g.status, m) <==> old(has(g.status, m))
 //@ spec edgesKept(g *EscapeGraph) bool = forall a *Node, b *Node :: old(has(g.edges, a) && has(g.edges[a], b)) ==> has(g.edges, a) && has(g.edges[a], b)
 
 //@ func Node.IntrinsicEscape
@@ -69,6 +71,7 @@ package escape
 //@   ensures edge_maps_kept: forall m *Node :: old(has(g.edges, m)) ==> has(g.edges, m) && g.edges[m] == old(g.edges[m])
 //@   ensures new_node_has_no_edges: !old(has(g.status, n)) ==> forall y *Node :: !has(g.edges[n], y)
 //@   ensures only_n_added: forall m *Node :: has(g.edges, m) ==> m == n || old(has(g.edges, m))
+//@   ensures targets_kept: old(targetsAreNodes(g)) ==> targetsAreNodes(g)
 //@   ensures wf: wfGraph(g)
 //@   modifies map(*Node;EscapeStatus), map(*Node;map[*Node]edgeFlags), map(*Node;*dataflow.EscapeRationale)
 
@@ -83,6 +86,8 @@ package escape
 //@   property C15
 //@   option append_both
 //@   requires g != nil && g.status != nil && g.edges != nil && g.rationales != nil
+//@   requires tn: targetsAreNodes(g) && has(g.status, b)
+//@   ensures same_nodes{tn,dom,dom2}: sameNodes(g)
 //@   ensures extensive{grew,grew2}: statusGrew(g)
 //@   ensures propagated{prop,prop2}: g.status[b] >= old(g.status[a])
 //@   ensures closed{pending,pending2}: forall x *Node, y *Node :: edge(g, x, y) && (old(g.status[y] >= g.status[x]) || (x == a && y == b)) ==> g.status[y] >= g.status[x]
@@ -98,6 +103,8 @@ package escape
 //@   loop node invariant pending{pending,pending2,cur}: forall x *Node, y *Node :: edge(g, x, y) && (old(g.status[y] >= g.status[x]) || (x == a && y == b)) ==> g.status[y] >= g.status[x] || inWL(worklist, x)
 //@   loop succ invariant pending2{pending,pending2,cur}: forall x *Node, y *Node :: edge(g, x, y) && (old(g.status[y] >= g.status[x]) || (x == a && y == b)) ==> g.status[y] >= g.status[x] || inWL(worklist, x) || (x == node && !visited(succ, y))
 //@   loop succ invariant cur{cur}: g.status[node] == nodeStatus
+//@   loop node invariant dom{tn,dom,dom2}: sameNodes(g)
+//@   loop succ invariant dom2{tn,dom,dom2}: sameNodes(g)
 
 // AddEdge adds the edge src->dest (adding both nodes if needed) and re-closes the
 // graph along it: afterwards dest is at least as escaped as src, no status was
@@ -105,7 +112,8 @@ package escape
 // before is still closed.
 //@ func EscapeGraph.AddEdge
 //@   property C15
-//@   requires wfGraph(g) && src != nil && dest != nil
+//@   requires wfGraph(g) && targetsAreNodes(g) && src != nil && dest != nil
+//@   ensures wf: wfGraph(g) && targetsAreNodes(g)
 //@   ensures edge_added: has(g.edges, src) && has(g.edges[src], dest)
 //@   ensures closed_edge: g.status[dest] >= g.status[src]
 //@   ensures status_grew: statusGrew(g)
@@ -116,6 +124,10 @@ package escape
 //@ func EscapeGraph.MergeNodeStatus
 //@   property C15
 //@   requires g != nil && g.status != nil && g.edges != nil && g.rationales != nil
+//@   requires tn: targetsAreNodes(g)
+//@   ensures nodes_same: old(has(g.status, n)) ==> sameNodes(g)
+//@   loop pointee invariant dom: old(has(g.status, n)) ==> sameNodes(g)
+//@   loop pointee invariant tnk: targetsAreNodes(g)
 //@   ensures status_grew: statusGrew(g)
 //@   ensures at_least: g.status[n] >= s
 //@   ensures closed_kept{kept}: forall x *Node, y *Node :: edge(g, x, y) && old(g.status[y] >= g.status[x]) && x != n ==> g.status[y] >= g.status[x]
